@@ -207,6 +207,18 @@ def primality():
         t0 = time.time()
         ok, detail = certs.certified_prime(k, n)
         out.append(dict(name="pratt:%s is prime" % k, backend="certificate", status="discharged" if ok else "refuted", detail=detail, time=round(time.time() - t0, 3)))
+    # the same four numbers once more, by an independent checker: Lucas primality test inside Lean's kernel on the same
+    # certificates (the numeral in each theorem statement is compared with the published value here)
+    from . import leanback
+    t0 = time.time()
+    ps = leanback.primes_status()
+    lits = {"Q": "theorem prime_Q : Nat.Prime (2 ^ 255 - 19)", "L": "theorem prime_L : Nat.Prime %d " % todo["L"],
+            "q1024": "theorem prime_q1024 : Nat.Prime %d " % todo["q1024"], "q2048": "theorem prime_q2048 : Nat.Prime %d " % todo["q2048"]}
+    stated = todo["Q"] == 2 ** 255 - 19 and all(l in ps["text"] for l in lits.values())
+    out.append(dict(name="lean:Nat.Prime Q, L, q1024, q2048 (Primes.lean generated from the Pratt certificates, Lucas test checked by Lean's kernel)",
+                    backend="lean", status="discharged" if ps["ok"] and stated else "undecided",
+                    detail=("lean %.0fs%s, sha %s" % (ps["seconds"], ", cached" if ps["cached"] else "", ps["sha"][:16])) if ps["ok"] and stated else ("statements do not name the published numbers" if ps["ok"] else ps["why"]),
+                    time=round(time.time() - t0, 3)))
     for k, n in {"q3072": int(pub["groups"]["I3072"]["q"]), "p1024": int(pub["groups"]["I1024"]["p"]),
                  "p2048": int(pub["groups"]["I2048"]["p"]), "p3072": int(pub["groups"]["I3072"]["p"])}.items():
         ok = certs.miller_rabin(n, 64)
